@@ -88,23 +88,36 @@ def locate (s : Sess) (e : HEdit) : Option HMatch :=
 
 def overlapsAny (occ : List (Nat × Nat)) (a b : Nat) : Bool := occ.any fun (os, oe) => a < oe && b > os
 
-/-- `_proxy_for_insertion`: a range that lies inside one pending insertion is rewritten as a replacement of that
-whole insertion (its text with the range replaced), addressed in raw coordinates; `none` when it does not -/
-def nestedProxyAt (s : Sess) (clean : Bool) (start len : Nat) (new : Str) (comment : Option Str) : Option (Sess × Bool) :=
+/-- `_proxy_for_insertion` once the insertion is known: the range (possibly empty) is rewritten as a replacement of
+that whole insertion (its text with the range replaced), addressed in raw coordinates -/
+def nestedProxyWith (s : Sess) (clean : Bool) (start len : Nat) (new : Str) (comment : Option Str) (id : Str) :
+    Option (Sess × Bool) :=
   let raw := s.spans false
   let act := s.spans clean
-  match insertionEnclosing act start (start + len) with
-  | some id =>
-    let insSp := act.filter fun o => o.sp.insId == some id
-    let rawIns := raw.filter fun o => o.sp.insId == some id
-    match insSp.head?, rawIns.head? with
-    | some i0, some r0 =>
-      let full := ospansText insSp
-      let rel := start - i0.start
-      let expanded := full.take rel ++ new ++ full.drop (rel + len)
-      some (applyIndexed s false r0.start full.length expanded comment none)
-    | _, _ => none
+  let insSp := act.filter fun o => o.sp.insId == some id
+  let rawIns := raw.filter fun o => o.sp.insId == some id
+  match insSp.head?, rawIns.head? with
+  | some i0, some r0 =>
+    let full := ospansText insSp
+    let rel := start - i0.start
+    let expanded := full.take rel ++ new ++ full.drop (rel + len)
+    some (applyIndexed s false r0.start full.length expanded comment none)
+  | _, _ => none
+
+/-- `_proxy_for_insertion`: a range that lies inside one pending insertion replaces that insertion; `none` when it
+does not -/
+def nestedProxyAt (s : Sess) (clean : Bool) (start len : Nat) (new : Str) (comment : Option Str) : Option (Sess × Bool) :=
+  match insertionEnclosing (s.spans clean) start (start + len) with
+  | some id => nestedProxyWith s clean start len new comment id
   | none => none
+
+/-- new text that goes strictly inside a pending insertion becomes part of it -/
+def nestedInsertAt (s : Sess) (clean : Bool) (start : Nat) (new : Str) (comment : Option Str) : Option (Sess × Bool) :=
+  if new.isEmpty then none
+  else
+    match insertionAround (s.spans clean) start with
+    | some id => nestedProxyWith s clean start 0 new comment id
+    | none => none
 
 /-- the effective edit after the match: no-op, extension → insertion at the end of the match, otherwise
 context trimming (`_trim_common_context`) and the operation the remainder calls for; a changed part that
@@ -114,14 +127,17 @@ def heuristicDirect (s : Sess) (m : HMatch) (e : HEdit) : Sess × Bool :=
   let actual := (actText.drop m.start).take m.len
   if actual = e.new then (s, true)
   else if actual.isPrefixOf e.new then
-    applyIndexed s m.clean (m.start + m.len) 0 (e.new.drop actual.length) e.comment (some .insertion)
+    match nestedInsertAt s m.clean (m.start + m.len) (e.new.drop actual.length) e.comment with
+    | some r => r
+    | none => applyIndexed s m.clean (m.start + m.len) 0 (e.new.drop actual.length) e.comment (some .insertion)
   else
     let pq := Trim.trim Trim.pyIsSpace actual e.new
     let ft := (actual.take (actual.length - pq.2)).drop pq.1
     let fn := (e.new.take (e.new.length - pq.2)).drop pq.1
     if ft.isEmpty && fn.isEmpty then (s, true)
     else
-      let nested := if ft.isEmpty then none else nestedProxyAt s m.clean (m.start + pq.1) ft.length fn e.comment
+      let nested := if ft.isEmpty then nestedInsertAt s m.clean (m.start + pq.1) fn e.comment
+                    else nestedProxyAt s m.clean (m.start + pq.1) ft.length fn e.comment
       match nested with
       | some r => r
       | none =>
